@@ -3,7 +3,7 @@ import numpy as np
 from ..runner import Acc, HarnessError
 from ..refmodel import Fmt
 from .. import alphabet as al
-from ..common import Fxp, codes, flags, fmt_of, reset_class_state
+from ..common import Fxp, codes, flags, fmt_of, reset_class_state, build
 
 ID = 'C13'
 RULE = ('cases = (x format, y kind [Fxp of either signedness / int mask right / int mask left], operator in {~,&,|,^}, code pair); result must have '
@@ -23,8 +23,10 @@ def unpat(p, f):
     return p - (1 << f.n_word) if (f.signed and p >> (f.n_word - 1)) else p
 
 
-def mkx(f, cs):
+def mkx(f, cs, by='raw'):
     """cs: list -> array object; int -> scalar object"""
+    if by == 'value' and f.n_word < 64:
+        return build(f, cs if isinstance(cs, list) else [cs], (len(cs),) if isinstance(cs, list) else (), 'value')
     if isinstance(cs, list):
         arr = np.array(cs, dtype=object if f.n_word >= 64 else np.int64)
         return Fxp(arr, f.signed, f.n_word, f.n_frac, raw=True)
@@ -35,12 +37,13 @@ def do(op, a, b):
     return a & b if op == '&' else (a | b if op == '|' else a ^ b)
 
 
-def judge_binary(acc, fxm, xs, ykind, yf, yc, op, part):
+def judge_binary(acc, fxm, xs, ykind, yf, yc, op, part, by='raw'):
     """xs: list of x codes (array) or single int (scalar); ykind: 'fxp' | 'mask_r' | 'mask_l'"""
     n = fxm.n_word
     arr = isinstance(xs, list)
     xl = xs if arr else [xs]
-    case = {'part': part, 'fx': list(fxm), 'xs': xs, 'ykind': ykind, 'fy': list(yf) if yf else None, 'yc': yc, 'op': op}
+    case = {'part': part, 'fx': list(fxm), 'xs': xs, 'ykind': ykind, 'fy': list(yf) if yf else None, 'yc': yc, 'op': op, 'by': by}
+    acc.dim('built_by', by, len(xl))
     acc.evaluations += len(xl)
     acc.transitions += 1
     acc.dim('ykind', ykind, len(xl))
@@ -48,9 +51,9 @@ def judge_binary(acc, fxm, xs, ykind, yf, yc, op, part):
     neg = (yc < 0) or (yf is not None and yf.signed != fxm.signed)
     acc.nontrivial += sum(1 for c in xl if c < 0 or neg)
     try:
-        x = mkx(fxm, xs)
+        x = mkx(fxm, xs, by)
         if ykind == 'fxp':
-            y = Fxp(yc, yf.signed, yf.n_word, yf.n_frac, raw=True)
+            y = mkx(yf, yc, by)
             z = do(op, x, y)
         elif ykind == 'mask_r':
             z = do(op, x, yc)
@@ -185,6 +188,8 @@ def run_shard(sh):
                     for yc in range(yf.lo, yf.hi + 1):
                         for op in BIN:
                             judge_binary(acc, fxm, xs, 'fxp', yf, yc, op, 'S')
+                            if nf in (0, nw):
+                                judge_binary(acc, fxm, xs, 'fxp', yf, yc, op, 'S', 'value')
                             if nw <= sh['ks'] and nf in (0, nw):
                                 for c in xs:
                                     judge_binary(acc, fxm, c, 'fxp', yf, yc, op, 'Ss')
@@ -247,7 +252,7 @@ def replay(case):
     elif case['op'] == '~':
         judge_invert(acc, Fmt(*case['fx']), case['xs'], case['part'])
     else:
-        judge_binary(acc, Fmt(*case['fx']), case['xs'], case['ykind'], Fmt(*case['fy']) if case['fy'] else None, case['yc'], case['op'], case['part'])
+        judge_binary(acc, Fmt(*case['fx']), case['xs'], case['ykind'], Fmt(*case['fy']) if case['fy'] else None, case['yc'], case['op'], case['part'], case.get('by', 'raw'))
     return acc.violations
 
 
